@@ -93,3 +93,35 @@ Theorem C02_clock_read_refuted :
   exists e1 e2, same_binary e1 e2 /\ observe [BuildInfo; Clock] e1 <> observe [BuildInfo; Clock] e2.
 Proof. exact clock_read_refuted. Qed.
 Print Assumptions C02_clock_read_refuted.
+
+(** "Generating twice from the same document": a caller that holds ONE loaded document value and generates from it again.
+    If what a generation leaves of its input gives the same output as the input did, every later generation from that
+    value repeats the first output. *)
+Theorem C02_one_loaded_document : forall (doc out : Type) (gen : doc -> out * doc),
+  input_stable gen -> forall n d, outputs gen n d = repeat (out_of gen d) n.
+Proof. exact stable_outputs_constant. Qed.
+Print Assumptions C02_one_loaded_document.
+
+(** The generator's own handling of the caller's document (cases_C02_onedoc ties [lgen] to Generate: which components of
+    other documents each of three generations declares locally): without embedded-spec the input is left as found; a
+    document that refers to no other document is unaffected either way; and in every case the second, third, ... outputs
+    are one and the same. *)
+Theorem C02_without_embedded_spec_input_stable : input_stable (lgen false).
+Proof. exact lgen_not_embedded_stable. Qed.
+Print Assumptions C02_without_embedded_spec_input_stable.
+
+Theorem C02_no_external_reference_outputs_constant : forall e n d,
+  ld_external d = [] -> outputs (lgen e) n d = repeat (ld_locals d) n.
+Proof. exact lgen_outputs_no_external. Qed.
+Print Assumptions C02_no_external_reference_outputs_constant.
+
+Theorem C02_later_generations_agree : forall e n d,
+  outputs (lgen e) n (left_of (lgen e) d) = repeat (out_of (lgen e) (left_of (lgen e) d)) n.
+Proof. exact lgen_settles. Qed.
+Print Assumptions C02_later_generations_agree.
+
+(** The full statement is FALSE of the faithful model (recorded finding
+    embedded_spec_internalises_references_in_the_callers_document; witness: the wide document of the harness). *)
+Theorem C02_embedded_spec_changes_its_input_refuted : ~ input_stable (lgen true).
+Proof. exact embedded_internalises_refuted. Qed.
+Print Assumptions C02_embedded_spec_changes_its_input_refuted.
